@@ -352,6 +352,29 @@ func replayWriterOne(sc *wScenario, realB int, seed int64, stepTimeout time.Dura
 		pending = ch
 	}
 
+	// direct calls are guarded: a call that never returns with all gates open is a termination violation
+	const callTimeout = 20 * time.Second
+	gCall := func(i int, op string, f func() (int, error)) (wret, bool) {
+		ch := make(chan wret, 1)
+		go func() {
+			r := wret{op: op}
+			defer func() {
+				if p := recover(); p != nil {
+					r.panic = p
+				}
+				ch <- r
+			}()
+			r.n, r.err = f()
+		}()
+		select {
+		case r := <-ch:
+			return r, true
+		case <-time.After(callTimeout):
+			res.Status, res.Pred, res.Detail, res.Step = "violation", "termination", fmt.Sprintf("%s did not return within %v with all gates open", op, callTimeout), i
+			return wret{}, false
+		}
+	}
+
 	prev := sc.Init
 	for i, st := range sc.Steps {
 		exp := sc.Exp[i]
@@ -367,15 +390,10 @@ func replayWriterOne(sc *wScenario, realB int, seed int64, stepTimeout time.Dura
 				}
 				buf := orig[written : written+n]
 				written += n
-				r := wret{op: "write"}
-				func() {
-					defer func() {
-						if p := recover(); p != nil {
-							r.panic = p
-						}
-					}()
-					r.n, r.err = w.Write(buf)
-				}()
+				r, ok := gCall(i, "write", func() (int, error) { return w.Write(buf) })
+				if !ok {
+					return
+				}
 				if r.err != nil {
 					written -= n - max(r.n, 0)
 				}
@@ -387,8 +405,10 @@ func replayWriterOne(sc *wScenario, realB int, seed int64, stepTimeout time.Dura
 					return
 				}
 				atomic.StoreInt32(&inClose, 1)
-				r := wret{op: "close"}
-				r.err = w.Close()
+				r, ok := gCall(i, "close", func() (int, error) { return 0, w.Close() })
+				if !ok {
+					return
+				}
 				atomic.StoreInt32(&inClose, 0)
 				if !checkReturn2(i, r) {
 					return
@@ -494,15 +514,10 @@ func replayWriterOne(sc *wScenario, realB int, seed int64, stepTimeout time.Dura
 	}
 	for k := 0; k < 3 && !closeNil; k++ {
 		atomic.StoreInt32(&inClose, 1)
-		r := wret{op: "close"}
-		func() {
-			defer func() {
-				if p := recover(); p != nil {
-					r.panic = p
-				}
-			}()
-			r.err = w.Close()
-		}()
+		r, ok := gCall(len(sc.Steps), "close", func() (int, error) { return 0, w.Close() })
+		if !ok {
+			return
+		}
 		atomic.StoreInt32(&inClose, 0)
 		if !checkReturn2(len(sc.Steps), r) {
 			return
